@@ -471,6 +471,8 @@ func runAlterCase(env *alterEnv, b *baseBlob, a alt, cb combo) (res caseResult) 
 	exact, prefixOnly, detail := tocMatches(b, raw, ext)
 	if !exact && !prefixOnly {
 		rc.fail("C01/alter/verify-accepted-foreign-toc", "VerifyTOC(D) returned nil but the TOC JSON designated by the altered bytes does not hash to D (%s). expected: error; actual: nil", detail)
+		res.Outcome, res.Viol = "VERIFY-ACCEPTED-FOREIGN-TOC", rc.v // reading through a TOC nobody vouched for proves nothing more
+		return
 	}
 	phase = "lookup"
 	for fi := range b.Files {
@@ -678,7 +680,9 @@ func alterChild() {
 					case cr.Panic != "":
 						emit(childLine{T: "X", Msg: fmt.Sprintf("pristine blob %s via %s: %s", cfg, cb, cr.Panic)})
 						return
-					case !cr.Verified || (cr.Outcome != "ok-unaffected" && !cfg.NoDigest):
+					case cfg.NoDigest:
+						// a TOC without digests cannot be verified: rejected by a prefetch-first open, unreadable otherwise
+					case !cr.Verified || cr.Outcome != "ok-unaffected":
 						// non-vacuity guard: everything below assumes the unaltered layer is accepted and served
 						if cr.Viol == nil {
 							cr.Viol = &viol{Key: "C01/alter/pristine-blob-rejected", Msg: fmt.Sprintf("base %s, UNALTERED blob opened with its own TOC digest via %s: outcome %s. expected: verification succeeds and every read returns the original bytes; actual: %s (the remaining alteration results are not meaningful)", cfg, cb, cr.Outcome, cr.Outcome)}
